@@ -142,6 +142,31 @@ def run(ctx):
             for t in body:
                 etree.SubElement(d, "{%s}%s" % (xsdgen.TNS, t)).text = "v"
             check_doc(ctx, res, case, d, case.model_type(3), "optional-only", pending, compare_calls=True)
+    # 2c. too-short runs of an element with minOccurs >= 2 and a huge maxOccurs; repeating wildcards over children that decode to None
+    for name, src in xsdgen.short_run_schemas():
+        case = enginea.Case(0, name, src=src)
+        res.programs += 1
+        for body in (["a", "tail"], ["a", "zzz"], ["a"], ["a", "a", "tail"], ["tail"], ["a", "b", "a"], ["a", "tail", "a", "a"], []):
+            d = etree.Element("{%s}root" % xsdgen.TNS)
+            for t in body:
+                etree.SubElement(d, "{%s}%s" % (xsdgen.TNS, t)).text = "v"
+            check_doc(ctx, res, case, d, case.model_type(3), "short-run", pending, compare_calls=True)
+    for mx in (None, 100000000, 3):
+        case = enginea.Case(0, "wildcard", src=xsdgen.wildcard_schema(mx))
+        res.programs += 1
+        XSI = "http://www.w3.org/2001/XMLSchema-instance"
+        for body in (["a", "root"], ["a", "root", "zzz"], ["a", "root", "root"], ["a", "zzz", "root"], ["a", "nil"], ["a", "nil", "root", "zzz", "nil"], ["a"] + ["root"] * 6, ["root"]):
+            d = etree.Element("{%s}root" % xsdgen.TNS, nsmap={"xsi": XSI, "xs": "http://www.w3.org/2001/XMLSchema"})
+            for t in body:
+                if t == "nil":
+                    e = etree.SubElement(d, "{%s}whatever" % xsdgen.TNS)
+                    e.set("{%s}nil" % XSI, "true")
+                    e.set("{%s}type" % XSI, "xs:int")
+                elif t == "root":
+                    etree.SubElement(d, "{%s}root" % xsdgen.TNS)        # a declared global element, empty: decodes to None
+                else:
+                    etree.SubElement(d, "{%s}%s" % (xsdgen.TNS, t)).text = "v"
+            check_doc(ctx, res, case, d, case.model_type(3), "wildcard-none-children", pending, compare_calls=False)
     # 3. nested choices: depth up to 14, documents picking the innermost / middle / outermost branch
     for depth in (3, 8, 14):
         for rep in (False, True):
